@@ -1,0 +1,8 @@
+//go:build verif
+
+package reader
+
+// VerifState exposes the reader position for the /verif lexer monitor.
+func (lr *LexerReader) VerifState() (pos int, length int, unget bool, history int) {
+	return lr.pos, len(lr.runes), lr.ungetFlg && lr.char != 0, len(lr.history)
+}
